@@ -91,8 +91,22 @@ def owned(prop, clause, fam):
     return False
 
 
+# spec -> code: simulated behaviours of the model replayed on the code (module, simulation cfg)
+SIM = {'C01': ('MC_core.tla', 'SIM_core.cfg'), 'C02': ('MC_core.tla', 'SIM_g1.cfg'), 'C03': ('MC_core.tla', 'SIM_core.cfg'), 'C04': ('MC_core.tla', 'SIM_core.cfg'),
+       'C05': ('MC_core.tla', 'SIM_core.cfg'), 'C06': ('MC_core.tla', 'SIM_core.cfg'), 'C09': ('MC_core.tla', 'SIM_core.cfg'),
+       'C07': ('MC_fwd.tla', 'SIM_fwd.cfg'), 'C08': ('MC_fwd.tla', 'SIM_fwd.cfg'), 'C11': ('MC_core.tla', 'SIM_err.cfg'),
+       'C13': ('MC_hist.tla', 'SIM_hist.cfg'), 'C14': ('MC_hist.tla', 'SIM_hist.cfg'), 'C15': ('MC_core.tla', 'SIM_idle.cfg')}
+_REPLAY = {}
+
+
 def build_scenarios(prop, tier, seed):
     out = []
+    if prop in SIM:
+        from harness import replay
+        behs = replay.simulate(SIM[prop][0], SIM[prop][1], num=25 if tier == 'quick' else 400, seed=seed + 1)
+        for i, b in enumerate(behs):
+            out.append(('replay/%d' % i, replay.to_scenario(b)))
+            _REPLAY['replay/%d' % i] = b
     for fam, count in PLAN[prop][tier]:
         kind = families.FAMILIES[fam][0]
         ss = families.generate(fam, seed, count) if kind == 'rand' else families.generate(fam, seed, count)
@@ -248,6 +262,19 @@ def check_property(prop, tier, seed, extra_parts=None):
     if conf is not None:
         cov['conformance_TraceImpl'] = conf
         cov['states'] += conf['states']
+    if _REPLAY:
+        from harness import replay
+        foll = rep = 0
+        for sid, b in _REPLAY.items():
+            tr = res['traces'].get(sid)
+            if tr is None:
+                continue
+            foll += replay.shape(b['log']) == replay.shape(tr['lines'])
+            mw = {(w['c'], w['kf']) for w in (b['wit'] if isinstance(b['wit'], list) else [])}
+            cw = {(w['c'], w['kf']) for w in res['reports'].get(sid, {'wit': []})['wit']}
+            rep += mw <= cw
+        cov['spec_to_code_replay'] = {'behaviours_simulated_by_TLC': len(_REPLAY), 'followed_line_for_line': foll, 'model_witnesses_reproduced_on_code': rep,
+                                      'note': 'every replayed execution is also validated by TraceObs (verdicts) and TraceImpl (conformance) above'}
     ev = {
         'property_id': prop, 'tier': tier, 'seed': seed, 'level': 'model_checking', 'coverage': cov,
         'assumptions': [
